@@ -203,7 +203,9 @@ def bind(op, tree):
             if tree.lookup("/ea") is not None:
                 return []
             return [dict(op="set", recv="/", path="ea", abs="/ea", v={"t": "arr", "dt": "i8", "v": [1, 2, 3]}, macro="edit"),
-                    dict(op="setattr", abs="/ea", key="unit", v={"t": "str", "v": "m"}, macro="edit")]
+                    dict(op="setattr", abs="/ea", key="unit", v={"t": "str", "v": "m"}, macro="edit"),
+                    dict(op="setattr", abs="/ea", key="when", v={"t": "dt64", "v": "2020-01-01T12:00:00"}, macro="edit"),
+                    dict(op="setattr", abs="/ea", key="mode", v={"t": "enum0", "v": 1}, macro="edit")]
         p = arrs[op[1] % len(arrs)]
         n = tree.lookup(p).value[2][0]
         return [dict(op="edit", abs=p, idx=op[2] % n, val=op[3])]
